@@ -19,7 +19,8 @@ def run(ctx):
         "language is the generic language restricted to records whose reported overhangs match the signature under the "
         "IUPAC classes of C16. Part classes resolve _match to the same implementation as their generic sibling. "
         "characterize(): the only value returned was valid on its path, every candidate is tried, the fall-through raises "
-        "RuntimeError. Depends on C06 (a part compiles its own pattern)."
+        "RuntimeError. Depends on C06 (a part compiles its own pattern) and on the transcription table of C16 (every IUPAC code "
+        "a signature may carry stands for its class of nucleotides: user signatures are arbitrary)."
         ' The symbolic-signature part is folded for every enzyme in scope in the quick tier too. candidates-typable: characterize() evaluated with a candidate that cannot be typed -- unless it steps over such a candidate, every direct subclass of a kit part base must be concrete (class table).'
     )
     r.not_decided = ["which occurrence the regex engine reports when several exist"]
@@ -53,6 +54,10 @@ def run(ctx):
                 if not kc.concrete:
                     raise AnalysisError("symbolic %s part over %s does not fold: %s" % (role, e, kc.abstract_reason))
                 ctx.guard(part_erasure, ctx, kc, "C05.symbolic-part", symbolic=True)
+    # "match the signature under IUPAC rules", for arbitrary user-defined signatures: every ambiguity code a signature may
+    # carry must be transcribed to its class of nucleotides (the bundled kits use few of them)
+    from ..rules_flow import transcription_rule
+    ctx.guard(transcription_rule, ctx, "C05.transcription")
     ctx.guard(characterize_rule, ctx, "C05.characterize")
     from ..kernels import run_kernels
     run_kernels(ctx, ["K10", "K1"], "C05")
